@@ -2,12 +2,19 @@
    Same model as C06.  Proved in Coq: the structure of the notifications of one removal - the unload
    notifications come first (the dependents of the symbol, then the symbol), the node is closed after
    them (C07_unload_before_close) - and the table invariant of C06 for every reachable state.
-   PARTIAL: "active = reference closure present" and the strict load/unload alternation per symbol
-   are not proved in Coq; they are evaluated after every operation of every generated history both on
-   the implementation (directly, by a Go oracle that recomputes the closure from the specs) and
-   against the model (per-instance notification sequences and active sets must coincide). *)
+   C07_activation_test_is_closure: the activation test decides "reference closure present" (any state).
+   C07_load_only_closed / C07_unload_only_closed: hooks fire only for symbols whose closure is present.
+   C07_walk_is_referrers: the list a load / unload walks holds exactly the symbols that reach the start symbol
+   through the reference index (cycles included).
+   C07_load_exactly / C07_unload_exactly: a load (unload) whose flows succeed notifies EXACTLY the symbols that
+   reach the start symbol through references and pass the activation test - no more, no fewer.
+   PARTIAL: that the reference index is the reverse of the resolved port references in every reachable state, and
+   hence that a symbol an operation does not walk keeps its status (the cross-operation half of "exactly", and
+   the strict load/unload alternation), is not proved in Coq; it is evaluated after every operation of every
+   generated history both on the implementation (directly, by a Go oracle that recomputes the closure from the
+   specs) and against the model (per-instance notification sequences and active sets must coincide). *)
 From Coq Require Import List NArith ZArith Bool.
-From Uf Require Import Table.Table Table.TableProofs Table.ClosureProofs.
+From Uf Require Import Table.Table Table.TableProofs Table.ClosureProofs Table.OrderProofs.
 Import ListNotations.
 
 Theorem C07_unload_before_close : forall st id sb, find_sym st id = Some sb ->
@@ -61,3 +68,23 @@ Example C07_ex :
   events (t_run ops) =
   [ELoad 0; ELoad 1; ELoad 2; EUnload 1; ECloseNode 1; EUnload 2; EUnload 0; ECloseNode 0; ELoad 3; ELoad 2].
 Proof. vm_compute. reflexivity. Qed.
+
+(* the list one load / unload walks: exactly the symbols that reach the start symbol through the reference index *)
+Theorem C07_walk_is_referrers : forall st sb i, In i (ids (linked st sb)) <-> reachable st sb i.
+Proof. exact linked_members. Qed.
+Print Assumptions C07_walk_is_referrers.
+
+(* a load whose flows succeed notifies exactly the walked symbols that pass the activation test *)
+Theorem C07_load_exactly : forall st sb, snd (load st sb) = None ->
+  exists es, events (fst (load st sb)) = events st ++ es /\
+    forall i, In (ELoad i) es <->
+      exists s, In s (linked st sb) /\ s_inst s = i /\ reachable st sb (s_id s) /\ is_activated st s = true.
+Proof. exact load_exactly. Qed.
+Print Assumptions C07_load_exactly.
+
+Theorem C07_unload_exactly : forall st sb, snd (unload st sb) = None ->
+  exists es, events (fst (unload st sb)) = events st ++ es /\
+    forall i, In (EUnload i) es <->
+      exists s, In s (linked st sb) /\ s_inst s = i /\ reachable st sb (s_id s) /\ is_activated st s = true.
+Proof. exact unload_exactly. Qed.
+Print Assumptions C07_unload_exactly.
